@@ -72,6 +72,10 @@ impl Sys {
         } else {
             let mut policy = World::default_policy();
             policy.max_invoices = 4; // Model.NodeOps.MAX_INV: the approvals table fills up
+            // one case in four under a filter whose strict rule shadows the permissive one: nothing is downgraded
+            if case % 4 == 1 {
+                policy.filter = shadowed_permissive_filter();
+            }
             World::new(policy, seed, KeyDerivationStyle::Native)
         };
         let mut world = world;
